@@ -181,6 +181,22 @@ def run(res: Results, idx: Index, tier: str) -> None:
         else:
             res.violation("R-C12c", f"{CA}:{f.node.lineno}", key, f"non-selected values do not take the plain path ({plain}) or selected ones skip the bridge", f.qualname)
 
+    # ---- R-C12d: the optimizer removes the boundary Transposes where it can; that this never changes the function is
+    # decided by C02's rules for the transpose / reshape folds, re-decided here (observation guards, inverse-permutation
+    # precondition and its semantics, point-wise operator tables)
+    if not getattr(res, "_nested_xref", False):
+        from . import c02
+        res.rule("R-C12d", "transpose / reshape folds that remove boundary Transposes keep the function (C02 R-C02a/f/h/k for those passes)", floor=40)
+        sub = Results("C02", tier)
+        setattr(sub, "_nested_xref", True)
+        c02.run(sub, idx, tier)
+        n_x = 0
+        for inst in sub.instances:
+            if inst.rule in ("R-C02h", "R-C02k") or (inst.rule in ("R-C02a", "R-C02f") and ("transpose" in (inst.func + inst.key).lower() or "reshape" in (inst.func + inst.key).lower())):
+                n_x += 1
+                res.add("R-C12d", inst.status, inst.site, f"{inst.rule}::{inst.key}", f"[C02 {inst.rule}] {inst.detail}", inst.func)
+        res.analysed["c02_instances_for_layout_folds"] = n_x
+
 
 def _trace_field_validated(idx: Index, field: str) -> bool:
     """_TraceResult(<field>=<validated …>) in _trace_to_jaxpr"""
